@@ -69,13 +69,6 @@ func verifKeys(tag string, n int) ([]verifKey, []value.Primary) {
 	return ks, ps
 }
 
-func verifIdOf(p value.Primary) int {
-	if value.IsNull(p) {
-		return -1
-	}
-	return int(p.(*value.Integer).Raw())
-}
-
 // Joins of two temporary tables (<= 2 rows each, thorough 3 x 2) whose join keys are NULL or any
 // int64, through the real parser and Select pipeline: the result is exactly the multiset of row
 // pairs the operator's definition yields (condition TRUE, unmatched rows NULL-padded, USING /
